@@ -289,6 +289,8 @@ class BoundedGaussian(Gaussian):
             return super().prob(p)
 
     def sample(self, size=None):
+        if size is None:
+            return self.sample(1)[0]
         val = super().sample(size)
         out = True
         while np.any(out):
